@@ -443,3 +443,46 @@ def run(ctx):
             if not good:
                 ok, why = False, "number_facts_rules = %s, not count_rules(kb, key of the node's goal)" % show(v)
         ctx.ob("R7", "clause-count(%s)" % nm, ok and n > 0, ctx.where(F), why or "count_rules(kb, goal.key())")
+
+    # ---- R8: solve/solve_all answer text: `$Var = value` for the query's variables in argument order -------------
+    FS = prog.one("solutions::format_solution")
+    if FS is None:
+        ctx.missing("R8", "format_solution")
+        return
+    ctx.fn(FS)
+    qp = ("param", 1, FS.locals[1].get("name") or "")
+    rp = ("param", 2, FS.locals[2].get("name") or "")
+    ok, why, n = True, "", 0
+    for p in Walker(FS, max_visits=3, max_paths=100000).paths():
+        if p.end != "return":
+            continue
+        cur_q = None
+        for e in p.calls():
+            if not e["callee"].endswith("::index") or len(e["args"]) != 2:
+                continue
+            base, idx = strip(e["args"][0]), strip(e["args"][1])
+            from_q = mentions(base, lambda t: t == qp)
+            from_r = mentions(base, lambda t: t == rp)
+            if from_q and not from_r:
+                cur_q = idx
+            elif from_r and not from_q:
+                n += 1
+                if cur_q is None or idx != cur_q:
+                    ok, why = False, "a value is taken from the result at position %s while the variable was found at position %s" % (
+                        show(idx)[:50], show(cur_q)[:50] if cur_q else "?")
+        # ascending from 1: the loop variable comes from a Range starting at 1
+        for e in p.calls():
+            if e["callee"].endswith("::next") and mentions(e["args"][0], lambda t: t[0] == "agg" and t[1].endswith("ops::Range")):
+                rng = [t for t in [strip(e["args"][0])] if True]
+        starts = [dict(v[3]).get("start") for ev_ in p.events if ev_["k"] == "call" for v in [ev_.get("result")]
+                  if isinstance(v, tuple) and v[0] == "agg" and v[1].endswith("ops::Range")]
+    rngs = []
+    for blk in FS.blocks:
+        for st in blk["stmts"]:
+            if st["k"] == "assign" and st["rv"]["k"] == "aggregate" and st["rv"].get("adt", "").endswith("ops::Range"):
+                rngs.append(st["rv"]["ops"][0])
+    start_ok = bool(rngs) and all(o["k"] == "const" and o.get("int") == 1 for o in rngs)
+    rev = any((t["callee"].get("resolved") or t["callee"]["path"]).endswith("::rev") for bb, t in FS.calls())
+    ctx.ob("R8", "answer-text-positions", ok and n > 0 and start_ok and not rev, ctx.where(FS), why or (
+        "each variable of the query is printed with the result term at the same argument position, positions 1.. in ascending order"
+        if start_ok and not rev else "the argument positions are not walked from 1 upwards"))
